@@ -66,16 +66,39 @@ def run(ctx):
         muts = [c for c in nonforeign_calls(f) if "indexmap" in (c.resolved or "") and callee_method_name(c) in MUT]
         par = [c for c in nonforeign_calls(f) if c.is_("SpanRef<'a, R>::parent", "parent")]
         spn = [c for c in nonforeign_calls(f) if c.is_("Context<'a, S>::span", "span") and "Context" in (c.resolved or "")]
-        names = {callee_method_name(c) for c in muts}
-        ok = bool(names) and names <= {"entry", "or_insert_with", "or_insert"} and "entry" in names
+        # `if !map.contains_key(k) { map.insert(k, v) }` is entry(k).or_insert(v): an insert reached only where the same map
+        # was found not to contain the same key
+        def _guarded(c):
+            if callee_method_name(c) != "insert":
+                return False
+            a_ = [strip_sym(x) for x in arg_syms(c)]
+            for dd, lab in gates(c.fn.body, c.bb):
+                d_, neg = strip_sym(dd), False
+                while isinstance(d_, tuple) and d_ and d_[0] == "un" and d_[1] == "Not":
+                    d_, neg = strip_sym(d_[2]), not neg
+                if sym_is_call(d_, "contains_key") and isinstance(lab, bool) and (lab != neg) is False:
+                    k_ = [strip_sym(x) for x in d_[2]]
+                    if repr(k_[0]) == repr(a_[0]) and repr(sym_through(k_[1], "Clone::clone", "Deref::deref", "AsRef::as_ref")) == repr(sym_through(a_[1], "Clone::clone", "Deref::deref", "AsRef::as_ref")):
+                        return True
+            return False
+
+        guarded = [c for c in muts if _guarded(c)]
+        names = {callee_method_name(c) for c in muts if c not in guarded}
+        ok = (bool(names) or bool(guarded)) and names <= {"entry", "or_insert_with", "or_insert"} and ("entry" in names or bool(guarded))
         chk.ob("C17.a", f"{f.path} [parent merge is non-overwriting]", ok, "child fields win over inherited ones (inherited labels only through entry(k).or_insert..)" if ok else f"on_new_span merges the parent's labels with an overwriting operation ({sorted(names)}): an outer span's field would beat the inner span's", f.loc())
         okp = bool(muts) and len(par) == 1 and len(spn) >= 1
         detail = ""
         if okp:
             # every inherited entry is visited: the merging operation runs once per element of the parent's label map,
             # and that map is found in the extensions of cx.span(id).parent()
-            m0 = [c for c in muts if callee_method_name(c) == "entry"][0]
-            src, why = iteration_context(m0)
+            m0 = ([c for c in muts if callee_method_name(c) == "entry"] + guarded)[0]
+            m_it = m0
+            if m0 in guarded:
+                # the per-element step of a guarded insert is its (unconditional) membership test
+                tests = [c for c in nonforeign_calls(f) if c.fn is m0.fn and callee_method_name(c) == "contains_key" and m0.fn.body.dominates(c.bb, m0.bb)]
+                if tests:
+                    m_it = tests[-1]
+            src, why = iteration_context(m_it)
             okp = src is not None and any(isinstance(x, tuple) and x and x[0] == "call" and sym_is_call(x, "parent") and "SpanRef" in str(x[1]) for x in sym_walk(src))
             detail = why or "the merged map is not the parent's"
             # ... of the direct parent itself: its labels are already the merged view of the whole ancestry (nearest wins);
